@@ -386,6 +386,12 @@ def select(c: E, a: E, b: E) -> E:
         return a if c.val else b
     if a is b:
         return a
+    if is_int(a.ty) and c.op in ('lt', 'le', 'gt', 'ge') and len(c.args) == 2:
+        # integer min / max idioms (exact on integers; floats keep the select because of NaN)
+        x, y = c.args
+        if (x is a and y is b) or (x is b and y is a):
+            takes_smaller = (c.op in ('lt', 'le')) == (x is a)
+            return _mk('imin' if takes_smaller else 'imax', (a, b) if a.id < b.id else (b, a), a.ty) if not (a.is_const and b.is_const) else const(a.ty, min(a.val, b.val) if takes_smaller else max(a.val, b.val))
     return _mk('select', (c, a, b), a.ty)
 
 def node(op, args, ty):
@@ -465,4 +471,13 @@ def rebuild(op, args, ty):
     if op == 'cast': return cast('num', args[0], ty)
     if op == 'cast:bits': return cast('bits', args[0], ty)
     if op == 'select': return select(*args)
+    if op in ('imin', 'imax') and all(a.is_const for a in args):
+        return const(ty, min(args[0].val, args[1].val) if op == 'imin' else max(args[0].val, args[1].val))
+    if op == 'icast' and args[0].is_const:
+        return const(ty, args[0].val)
+    if op == 'wrap' and args[0].is_const:
+        return const(ty, args[0].val)          # const() wraps into the type
+    if op == 'outside' and args[0].is_const:
+        lo, hi = int_range(args[0].ty)
+        return cbool(not (lo <= args[0].val <= hi))
     return _mk(op, tuple(args), ty)
